@@ -22,7 +22,7 @@ from typing import Any, Callable, Dict, List, Optional, Sequence
 VERIF = Path(__file__).resolve().parent.parent
 REPO = Path(os.environ.get("HAP_REPO", "/repo"))
 LEAN = VERIF / "lean"
-EVIDENCE = VERIF / "evidence"
+EVIDENCE = VERIF / "evidence" if str(REPO) == "/repo" else Path("/tmp/verif-scratch-evidence")
 REPLAYS = VERIF / "replays"
 KNOWN = VERIF / "known_findings.txt"
 
@@ -32,6 +32,10 @@ FORBIDDEN_SRC = re.compile(
 )
 
 os.environ.setdefault("HAP_PYTHON_VERIF", "1")
+# The implementation under check is /repo (editable install). HAP_REPO=<dir> points the run at a
+# scratch copy instead (used only to try seeded changes / candidate repairs without touching /repo).
+if str(REPO) != "/repo":
+    sys.path.insert(0, str(REPO))
 
 
 def log(*a):
@@ -263,44 +267,31 @@ def prove(prop_module: str, extra_modules: Sequence[str] = (), thorough: bool = 
     return ProofResult(not problems, theorems, discharged, axioms, problems, out[-3000:], cmds)
 
 
-def run_model(lines: List[Dict[str, Any]], timeout: int = 1500) -> List[Dict[str, Any]]:
-    """Pipe JSON lines through the Lean driver; one answer per line."""
+def build_driver(driver: str):
+    ok, out = lake_build([f"Drivers.{driver}"])
+    if not ok:
+        raise ModelError(f"model driver Drivers.{driver} does not build:\n" + out[-3000:])
+
+
+def run_model(driver: str, lines: List[Dict[str, Any]], timeout: int = 1500) -> List[Dict[str, Any]]:
+    """Pipe JSON lines through the Lean driver lean/Drivers/<driver>.lean; one answer per line."""
     if not lines:
         return []
-    ok, out = lake_build(["HapModel"])
-    if not ok:
-        raise ModelError("model library does not build:\n" + out[-3000:])
-    inp = "\n".join(json.dumps(l, separators=(",", ":")) for l in lines) + "\n"
-    p = subprocess.run(
-        ["lake", "env", "lean", "--run", "Main.lean"],
-        cwd=LEAN,
-        input=inp,
-        capture_output=True,
-        text=True,
-        timeout=timeout,
-    )
-    outs = [l for l in _clean(p.stdout).splitlines() if l.strip()]
-    if p.returncode != 0 or len(outs) != len(lines):
-        raise ModelError(
-            f"driver returned {len(outs)} answers for {len(lines)} lines (rc={p.returncode}): "
-            + _clean(p.stderr)[-2000:]
-        )
-    return [json.loads(l) for l in outs]
+    build_driver(driver)
+    return _run_model_nobuild(driver, lines, timeout)
 
 
-def run_model_parallel(lines: List[Dict[str, Any]], workers: int = 8) -> List[Dict[str, Any]]:
+def run_model_parallel(driver: str, lines: List[Dict[str, Any]], workers: int = 8) -> List[Dict[str, Any]]:
     """Same as run_model but splits the batch over several driver processes."""
     if len(lines) < 64 or workers <= 1:
-        return run_model(lines)
+        return run_model(driver, lines)
     from concurrent.futures import ThreadPoolExecutor
 
-    ok, out = lake_build(["HapModel"])
-    if not ok:
-        raise ModelError("model library does not build:\n" + out[-3000:])
+    build_driver(driver)
     k = min(workers, max(1, len(lines) // 32))
     chunks = [lines[i::k] for i in range(k)]
     with ThreadPoolExecutor(k) as ex:
-        res = list(ex.map(_run_model_nobuild, chunks))
+        res = list(ex.map(lambda c: _run_model_nobuild(driver, c), chunks))
     outl: List[Any] = [None] * len(lines)
     for i, r in enumerate(res):
         for j, a in enumerate(r):
@@ -308,12 +299,13 @@ def run_model_parallel(lines: List[Dict[str, Any]], workers: int = 8) -> List[Di
     return outl
 
 
-def _run_model_nobuild(lines):
+def _run_model_nobuild(driver, lines, timeout: int = 1500):
     if not lines:
         return []
     inp = "\n".join(json.dumps(l, separators=(",", ":")) for l in lines) + "\n"
     p = subprocess.run(
-        ["lake", "env", "lean", "--run", "Main.lean"], cwd=LEAN, input=inp, capture_output=True, text=True, timeout=1500
+        ["lake", "env", "lean", "--run", f"Drivers/{driver}.lean"],
+        cwd=LEAN, input=inp, capture_output=True, text=True, timeout=timeout,
     )
     outs = [l for l in _clean(p.stdout).splitlines() if l.strip()]
     if p.returncode != 0 or len(outs) != len(lines):
